@@ -576,7 +576,14 @@ def escaper_cover(prog, path, seen=None):
                 return {i for i, v in enumerate(s["bytes"]) if v != 0 and i < 128}
         return set()
     out = set()
-    for body in closures_of(prog, path):
+    # the escaper, what is nested in it, and the bool-valued predicates of the same file it calls (a `needs_escape` helper may be
+    # nested or a module-level function)
+    bodies = list(closures_of(prog, path))
+    for q in family(prog, path, depth=1):
+        qf = prog.fn(q)
+        if q != path and not q.startswith(path + "::") and qf is not None and str(qf.locals[0]) == "bool" and q in prog.hir:
+            bodies.append(prog.hir[q]["body"])
+    for body in bodies:
         for m in H.nodes(body, "match"):
             for arm in m[2]:
                 if H.lit_value(arm[2]) is True:
